@@ -51,11 +51,6 @@ def _(self: "TypeParameter", factory: "Any") -> "Any":
     use_profile("wildcards")
 
 
-@family("src.ir.types.Type.has_type_variables", pure=True)
-def _(self: "Type") -> "Bool":
-    pass
-
-
 @contract("src.ir.types.WildCardType.get_bound_rec", pure=True)
 def _(self: "WildCardType") -> "Opt[Type]":
     pass
